@@ -10,7 +10,7 @@ from core import q
 
 warnings.simplefilter('ignore')
 
-REQUIRED = ['adj_split', 'clearance', 'inside_grown', 'coverage', 'rounded_apart', 'rounded_disjoint', 'order_perm', 'order_sorted',
+REQUIRED = ['adj_split', 'clearance', 'inside_grown', 'coverage', 'rounded_apart', 'rounded_disjoint', 'hsep_of_line', 'straight_guide_blocks_apart', 'order_perm', 'order_sorted',
             'order_sorted_rounded', 'sortedSetDesc_desc', 'mem_sortedSetDesc', 'remove_exact', 'keepFrom_eq_filter', 'remove_length',
             'remove_out_of_range', 'dig_spec']
 RULE = ('Layouts of 1..6 real Waveguide objects (straight, tilted, crossing, sin/arc S-bends, couplers, 3-D bridges, guides that start '
@@ -34,7 +34,8 @@ CLAIM = {
             'adj = bridge/2+waist+rc, rounded by rc, keeps bridge/2+waist (minus the polygonisation error) from every guide; it stays in '
             'the rectangle grown by rc; every far point of the rectangle is in a block for any number of blocks; two rounded blocks '
             'stay bridge+2*waist apart when a guide point lies on the way between any two of their raw points (the hypothesis that a '
-            'guide ending next to the column edge violates — open finding F7). List logic: the numbering is a permutation sorted by '
+            'guide ending next to the column edge violates — open finding F7; proved to hold for blocks on opposite sides of a straight '
+            'guide, hsep_of_line). List logic: the numbering is a permutation sorted by '
             'lowest y (also after rounding); removal with in-range indices in any order and multiplicity keeps exactly the blocks '
             'whose number is not listed, an out-of-range index is an error. Tied to the code by digging generated layouts with the '
             'real builders and comparing numbering/removal with the model and the geometry with shapely measurements.',
